@@ -4,6 +4,7 @@ import (
 	"errors"
 	"io"
 	"sync"
+	"unsafe"
 
 	"verif.local/engine/vsched"
 )
@@ -53,7 +54,7 @@ func (p *Pipe) Write(b []byte) (int, error) {
 	p.mu.Unlock()
 	n := 0
 	for {
-		vsched.Block("pipe.write", pipeWProbe{p})
+		vsched.BlockObj("pipe.write", pipeWProbe{p}, uintptr(unsafe.Pointer(p)), true)
 		p.mu.Lock()
 		if p.wclosed {
 			p.mu.Unlock()
@@ -83,7 +84,7 @@ func (p *Pipe) Read(b []byte) (int, error) {
 	if len(b) == 0 {
 		return 0, nil
 	}
-	vsched.Block("pipe.read", pipeRProbe{p})
+	vsched.BlockObj("pipe.read", pipeRProbe{p}, uintptr(unsafe.Pointer(p)), true)
 	p.mu.Lock()
 	defer p.mu.Unlock()
 	if p.rclosed {
@@ -108,7 +109,7 @@ func (p *Pipe) Read(b []byte) (int, error) {
 //
 //go:norace
 func (p *Pipe) CloseWrite() error {
-	vsched.Yield("pipe.close-w")
+	vsched.YieldObj("pipe.close-w", uintptr(unsafe.Pointer(p)), true)
 	p.mu.Lock()
 	p.wclosed = true
 	p.mu.Unlock()
@@ -119,7 +120,7 @@ func (p *Pipe) CloseWrite() error {
 //
 //go:norace
 func (p *Pipe) CloseRead() error {
-	vsched.Yield("pipe.close-r")
+	vsched.YieldObj("pipe.close-r", uintptr(unsafe.Pointer(p)), true)
 	p.mu.Lock()
 	p.rclosed = true
 	p.mu.Unlock()
@@ -130,6 +131,7 @@ func (p *Pipe) CloseRead() error {
 //
 //go:norace
 func (p *Pipe) Break(err error) {
+	vsched.TouchAll()
 	p.mu.Lock()
 	p.readErr = err
 	p.wclosed = true
